@@ -1,7 +1,804 @@
-//! C18 — not implemented yet.
+//! C18 — collapse returns the best hit of each group.
+//! Engine: inputmc collapse — small tie-prone worlds x segment layouts x (main sort x inner sort x
+//! inner from x inner size x limit), each collapsed response compared with what the *same* request
+//! without `collapse` (and limit = corpus size) implies. Differential between two runs of the
+//! implementation: ranking itself is C10's concern, grouping is this check's.
+
+use std::collections::{BTreeMap, HashMap, HashSet};
+use std::sync::atomic::{AtomicBool, AtomicU64, Ordering};
+
+use parking_lot::Mutex;
+use rayon::prelude::*;
+use searchlite_core::api::IndexReader;
+use serde_json::{json, Value};
+
+use vcore::ev::Reporter;
+use vcore::inp::*;
+use vcore::world::*;
+
 use crate::Ctx;
 
-pub fn run(_ctx: &Ctx) -> i32 {
-  eprintln!("C18: check not implemented");
-  2
+fn schema_json() -> Value {
+  json!({"doc_id_field": "_id",
+    "text_fields": [{"name": "body", "analyzer": "default", "stored": true, "indexed": true}],
+    "keyword_fields": [{"name": "g", "stored": true, "indexed": true, "fast": true},
+                       {"name": "kw", "stored": true, "indexed": true, "fast": true}],
+    "numeric_fields": [{"name": "n", "i64": true, "fast": true, "stored": true}]})
+}
+
+/// Document variants: two score levels for the query `a`, two `n` values, two `kw` values, and one
+/// missing sort value each — every sort key ties often.
+fn variants() -> Vec<Value> {
+  vec![
+    json!({"body": "a", "n": 1, "kw": "p"}),
+    json!({"body": "a", "n": 2, "kw": "q"}),
+    json!({"body": "a b", "n": 1, "kw": "q"}),
+    json!({"body": "a b", "kw": "p"}),
+  ]
+}
+
+fn main_plans() -> Vec<Value> {
+  vec![
+    json!([]),
+    json!([{"field": "n", "order": "asc"}]),
+    json!([{"field": "n", "order": "desc"}, {"field": "_score", "order": "desc"}]),
+    json!([{"field": "kw", "order": "asc"}, {"field": "_score", "order": "asc"}]),
+  ]
+}
+
+fn inner_plans() -> Vec<Value> {
+  vec![
+    json!([{"field": "_score", "order": "desc"}]),
+    json!([{"field": "n", "order": "desc"}]),
+    json!([{"field": "kw", "order": "desc"}, {"field": "n", "order": "asc"}]),
+  ]
+}
+
+/// Group assignments of n documents in canonical form: each position is missing (None) or a group
+/// label; labels appear in first-use order (x, then y, then z); at most 3 groups of size <= 4.
+fn group_seqs(n: usize) -> Vec<Vec<Option<u8>>> {
+  fn rec(n: usize, cur: &mut Vec<Option<u8>>, used: u8, out: &mut Vec<Vec<Option<u8>>>) {
+    if cur.len() == n {
+      out.push(cur.clone());
+      return;
+    }
+    for l in 0..=used.min(2) {
+      if cur.iter().filter(|x| **x == Some(l)).count() >= 4 {
+        continue;
+      }
+      cur.push(Some(l));
+      rec(n, cur, if l == used { used + 1 } else { used }, out);
+      cur.pop();
+    }
+    cur.push(None);
+    rec(n, cur, used, out);
+    cur.pop();
+  }
+  let mut out = Vec::new();
+  rec(n, &mut Vec::new(), 0, &mut out);
+  out
+}
+
+const LABELS: [&str; 3] = ["x", "y", "z"];
+
+fn mk_world(gs: &[Option<u8>], vs: &[usize], layout: &[usize]) -> World {
+  let var = variants();
+  let docs: Vec<Value> = gs
+    .iter()
+    .zip(vs)
+    .enumerate()
+    .map(|(i, (g, v))| {
+      let mut d = var[*v].clone();
+      d["_id"] = json!(id_of(i));
+      if let Some(l) = g {
+        d["g"] = json!(LABELS[*l as usize]);
+      }
+      d
+    })
+    .collect();
+  World::new("body+g+kw+n", schema_json(), docs).with_layout(layout.to_vec())
+}
+
+/// One or two segments.
+fn layouts(n: usize) -> Vec<Vec<usize>> {
+  let mut out = vec![vec![n]];
+  for k in 1..n {
+    out.push(vec![k, n - k]);
+  }
+  out
+}
+
+/// Fixed variant patterns for the larger worlds (position i gets pattern[i]).
+fn patterns(thorough: bool) -> Vec<Vec<usize>> {
+  let all = ["000000", "200000", "012301", "321032", "001122", "213213", "313101", "103210", "020213", "333333", "010101", "232323", "302130", "120312", "001100", "221133", "310203"];
+  all[..if thorough { 17 } else { 8 }].iter().map(|s| s.bytes().map(|b| (b - b'0') as usize).collect()).collect()
+}
+
+// ---------------------------------------------------------------------------------------------
+
+/// The uncollapsed ranking under one sort plan, with tie classes.
+struct Ref {
+  order: Vec<String>,
+  pos: HashMap<String, usize>,
+  class: HashMap<String, usize>,
+  total: u64,
+}
+
+fn reference(reader: &IndexReader, docs: &HashMap<String, Value>, query: &Value, sort: &Value) -> Result<Ref, String> {
+  let n = docs.len();
+  let r = search_caught(reader, &req(json!({"query": query, "sort": sort, "limit": n}))).map_err(|e| format!("uncollapsed reference request failed: {e}"))?;
+  if r.hits.len() != n {
+    return Err(format!("uncollapsed reference request (limit {n}) returned {} of {n} matching documents", r.hits.len()));
+  }
+  let specs: Vec<Value> = match sort.as_array() {
+    Some(a) if !a.is_empty() => a.clone(),
+    _ => vec![json!({"field": "_score"})],
+  };
+  let mut order = Vec::new();
+  let mut pos = HashMap::new();
+  let mut class = HashMap::new();
+  let mut cur = 0usize;
+  let mut prev: Option<(Vec<Value>, Vec<f32>)> = None;
+  for (i, h) in r.hits.iter().enumerate() {
+    let d = docs.get(&h.doc_id).ok_or_else(|| format!("unknown id {} in reference", h.doc_id))?;
+    let mut vals = Vec::new();
+    let mut scores = Vec::new();
+    for s in &specs {
+      let f = s["field"].as_str().unwrap_or("");
+      if f == "_score" {
+        scores.push(h.score);
+      } else {
+        vals.push(d.get(f).cloned().unwrap_or(Value::Null));
+      }
+    }
+    if let Some((pv, ps)) = &prev {
+      let same = *pv == vals && ps.iter().zip(&scores).all(|(a, b)| approx(*a, *b, 1e-5));
+      if !same {
+        cur += 1;
+      }
+    }
+    prev = Some((vals, scores));
+    order.push(h.doc_id.clone());
+    pos.insert(h.doc_id.clone(), i);
+    class.insert(h.doc_id.clone(), cur);
+  }
+  if pos.len() != n {
+    return Err("uncollapsed reference request returned a duplicate id".into());
+  }
+  Ok(Ref { order, pos, class, total: r.total_hits_estimate })
+}
+
+struct Outcome {
+  groups: usize,
+  collapsed_away: usize,
+  inner_total: usize,
+  tie_divergence: bool,
+  total_groups_short: bool,
+}
+
+fn sort_key(v: &Value) -> String {
+  match v.as_array() {
+    Some(a) if !a.is_empty() => v.to_string(),
+    _ => "[]".to_string(),
+  }
+}
+
+const SIG_INNER_SCORE: &str = "C18-inner-score-sort-without-main-score";
+const SIG_SEG_TOPK: &str = "C18-collapse-over-per-segment-topk";
+
+#[derive(PartialEq)]
+enum Kind {
+  Other,
+  /// the failure is only about the order / window position of inner hits
+  InnerOrder,
+}
+
+struct Fail {
+  kind: Kind,
+  what: String,
+}
+
+fn other(what: String) -> Fail {
+  Fail { kind: Kind::Other, what }
+}
+
+type Obs = Vec<(String, String, Vec<String>)>; // (group, representative, inner ids)
+
+fn show(o: &Obs) -> String {
+  o.iter().map(|(g, r, i)| format!("{g}:{r}{i:?}")).collect::<Vec<_>>().join(" ")
+}
+
+struct Case<'a> {
+  n: usize,
+  limit: usize,
+  has_inner: bool,
+  from: usize,
+  size: Option<usize>,
+  rm: &'a Ref,
+  obs: &'a Obs,
+  group_order: &'a [String],
+  members: &'a BTreeMap<String, Vec<String>>,
+  missing: usize,
+  total_groups: Option<u64>,
+  g_of: &'a dyn Fn(&str) -> Option<String>,
+}
+
+/// Judge the observed grouping against the uncollapsed main ranking `c.rm` and inner ranking `ri`.
+fn judge(c: &Case, ri: &Ref, exact: bool) -> Result<Outcome, Fail> {
+  let (obs, rm, members, group_order) = (c.obs, c.rm, c.members, c.group_order);
+  let window = |sorted: &[String]| -> Vec<String> {
+    if !c.has_inner {
+      return vec![];
+    }
+    let mut v: Vec<String> = sorted.iter().skip(c.from).cloned().collect();
+    if let Some(s) = c.size {
+      v.truncate(s);
+    }
+    v
+  };
+  let mut expected: Obs = Vec::new();
+  for g in group_order {
+    let m = &members[g];
+    let mut others: Vec<String> = m[1..].to_vec();
+    others.sort_by_key(|id| ri.pos[id]);
+    expected.push((g.clone(), m[0].clone(), window(&others)));
+  }
+  let full = c.limit >= c.n;
+  let mut out = Outcome { groups: obs.len(), collapsed_away: 0, inner_total: obs.iter().map(|o| o.2.len()).sum(), tie_divergence: false, total_groups_short: false };
+  out.collapsed_away = c.n.saturating_sub(c.missing).saturating_sub(obs.len());
+
+  // invariants of the statement (hold for every limit); tie classes make them tolerant of a
+  // different tie-break between two runs
+  let mut seen_g: HashSet<&str> = HashSet::new();
+  let mut prev_class: Option<usize> = None;
+  for (g, rep, inner) in obs {
+    if !seen_g.insert(g.as_str()) {
+      return Err(other(format!("two hits for collapse value {g}: observed {}", show(obs))));
+    }
+    let rc = rm.class[rep];
+    if let Some(better) = members[g].iter().find(|m| rm.class[*m] < rc) {
+      return Err(other(format!("hit {rep} represents group {g} but {better} of the same group ranks strictly better under the request sort (uncollapsed order {:?}); observed {}", rm.order, show(obs))));
+    }
+    if let Some(p) = prev_class {
+      if rc < p {
+        return Err(other(format!("groups are not in the order of their best hits: observed {} ; uncollapsed order {:?}", show(obs), rm.order)));
+      }
+    }
+    prev_class = Some(rc);
+    let mut seen_i: HashSet<&str> = HashSet::new();
+    for i in inner {
+      if i == rep {
+        return Err(other(format!("inner_hits of {rep} contain the representative itself: observed {}", show(obs))));
+      }
+      if (c.g_of)(i).as_deref() != Some(g.as_str()) {
+        return Err(other(format!("inner_hits of {rep} (group {g}) contain {i} which is not in that group: observed {}", show(obs))));
+      }
+      if !seen_i.insert(i.as_str()) {
+        return Err(other(format!("inner_hits of {rep} contain {i} twice: observed {}", show(obs))));
+      }
+    }
+    if !c.has_inner && !inner.is_empty() {
+      return Err(other(format!("inner_hits returned although the request has none: observed {}", show(obs))));
+    }
+    if let Some(s) = c.size {
+      if inner.len() > s {
+        return Err(other(format!("inner_hits of {rep} has {} entries for size {s}: observed {}", inner.len(), show(obs))));
+      }
+    }
+  }
+  // a group whose best hit ranks strictly before a returned group's best hit must be returned too
+  if let Some(last) = prev_class {
+    for g in group_order {
+      if !seen_g.contains(g.as_str()) && rm.class[&members[g][0]] < last {
+        return Err(other(format!("group {g} (best hit {}) ranks before a returned group but is not returned: observed {} ; uncollapsed order {:?}", members[g][0], show(obs), rm.order)));
+      }
+    }
+  }
+  for (_, rep, inner) in obs {
+    for w in inner.windows(2) {
+      if ri.class[&w[1]] < ri.class[&w[0]] {
+        return Err(Fail { kind: Kind::InnerOrder, what: format!("inner_hits of {rep} are not ordered by the inner sort: {:?} but the uncollapsed order under the inner sort is {:?}", inner, ri.order) });
+      }
+    }
+  }
+
+  if !full {
+    if let Some(tg) = c.total_groups {
+      if (tg as usize) < group_order.len() {
+        out.total_groups_short = true;
+      }
+    }
+    return Ok(out);
+  }
+
+  // limit >= n: full equality
+  let v = group_order.len();
+  let tg_ok = match c.total_groups.map(|x| x as usize) {
+    Some(t) => t == v || (c.missing > 0 && (t == v + 1 || t == v + c.missing)),
+    None => false,
+  };
+  if !tg_ok {
+    return Err(other(format!("total_groups {:?} but the matching documents have {v} distinct collapse values ({} documents without a value)", c.total_groups, c.missing)));
+  }
+  if exact && *obs == expected {
+    return Ok(out);
+  }
+  // tolerant judgement (ties may be broken differently between two runs)
+  if obs.len() != expected.len() {
+    return Err(other(format!("expected one hit per collapse value: {} ; observed {}", show(&expected), show(obs))));
+  }
+  for (g, rep, inner) in obs {
+    let others: Vec<&String> = members[g].iter().filter(|m| *m != rep).collect();
+    let exp_len = if !c.has_inner {
+      0
+    } else {
+      let avail = others.len().saturating_sub(c.from);
+      c.size.map(|s| s.min(avail)).unwrap_or(avail)
+    };
+    if inner.len() != exp_len {
+      return Err(other(format!("inner_hits of {rep} (group {g}) has {} entries, expected {exp_len} (others {:?}, from {}, size {:?}): expected {} ; observed {}", inner.len(), others, c.from, c.size, show(&expected), show(obs))));
+    }
+    for (j, x) in inner.iter().enumerate() {
+      let p = c.from + j;
+      let cx = ri.class[x];
+      let less = others.iter().filter(|o| ri.class[**o] < cx).count();
+      let leq = others.iter().filter(|o| ri.class[**o] <= cx).count();
+      if !(less <= p && p < leq) {
+        return Err(Fail { kind: Kind::InnerOrder, what: format!("inner_hits of {rep} (group {g}): {x} cannot stand at position {p} of the group's other members under the inner sort (uncollapsed inner order {:?}): expected {} ; observed {}", ri.order, show(&expected), show(obs)) });
+      }
+    }
+  }
+  out.tie_divergence = exact;
+  Ok(out)
+}
+
+fn fast_path(sort: &Value) -> bool {
+  match sort.as_array() {
+    None => true,
+    Some(a) if a.is_empty() => true,
+    Some(a) => a.len() == 1 && a[0]["field"] == "_score" && a[0].get("order").map(|o| o.is_null() || o == "desc").unwrap_or(true),
+  }
+}
+
+fn has_score(sort: &Value) -> bool {
+  sort.as_array().map(|a| a.is_empty() || a.iter().any(|s| s["field"] == "_score")).unwrap_or(true)
+}
+
+/// Judge one collapsed request. `refs` caches the uncollapsed rankings per sort plan.
+fn check(reader: &IndexReader, world: &World, reqj: &Value, refs: &mut HashMap<String, Ref>) -> Result<Outcome, (Option<&'static str>, String)> {
+  let un = |e: String| (None, e);
+  let docs: HashMap<String, Value> = world.docs.iter().map(|d| (d["_id"].as_str().unwrap().to_string(), d.clone())).collect();
+  let n = docs.len();
+  let query = &reqj["query"];
+  let main_sort = reqj.get("sort").cloned().unwrap_or(json!([]));
+  let collapse = &reqj["collapse"];
+  let inner_cfg = collapse.get("inner_hits").filter(|v| !v.is_null());
+  let inner_sort: Value = inner_cfg.and_then(|c| c.get("sort").cloned()).unwrap_or(json!([]));
+  let from = inner_cfg.and_then(|c| c.get("from")).and_then(|v| v.as_u64()).unwrap_or(0) as usize;
+  let size: Option<usize> = inner_cfg.and_then(|c| c.get("size")).and_then(|v| v.as_u64()).map(|x| x as usize);
+  let limit = reqj["limit"].as_u64().unwrap_or(0) as usize;
+  for s in [&main_sort, &inner_sort] {
+    let k = sort_key(s);
+    if !refs.contains_key(&k) {
+      let r = reference(reader, &docs, query, s).map_err(un)?;
+      refs.insert(k, r);
+    }
+  }
+  let g_of = |id: &str| -> Option<String> { docs.get(id).and_then(|d| d.get("g")).and_then(|v| v.as_str()).map(|s| s.to_string()) };
+
+  // expected grouping from the uncollapsed ranking
+  let mut group_order: Vec<String> = Vec::new();
+  let mut members: BTreeMap<String, Vec<String>> = BTreeMap::new();
+  let mut missing = 0usize;
+  for id in &refs[&sort_key(&main_sort)].order {
+    match g_of(id) {
+      Some(g) => {
+        if !members.contains_key(&g) {
+          group_order.push(g.clone());
+        }
+        members.entry(g).or_default().push(id.clone());
+      }
+      None => missing += 1,
+    }
+  }
+
+  let res = search_caught(reader, &req(reqj.clone())).map_err(|e| un(format!("collapsed request failed: {e}")))?;
+  let rm_total = refs[&sort_key(&main_sort)].total;
+  if res.total_hits_estimate != rm_total {
+    return Err(un(format!("total_hits_estimate {} with collapse but {} without (README: the overall hit count still reflects all matching documents)", res.total_hits_estimate, rm_total)));
+  }
+  if res.hits.len() > limit {
+    return Err(un(format!("{} hits for limit {limit}", res.hits.len())));
+  }
+  // observed, restricted to hits that have a collapse value (documents without one: not demanded)
+  let mut obs: Obs = Vec::new();
+  let mut all_scores_zero = true;
+  for h in &res.hits {
+    let inner: Vec<String> = h.inner_hits.as_ref().map(|v| v.iter().map(|x| x.doc_id.clone()).collect()).unwrap_or_default();
+    all_scores_zero &= h.score == 0.0 && h.inner_hits.as_ref().map(|v| v.iter().all(|x| x.score == 0.0)).unwrap_or(true);
+    match g_of(&h.doc_id) {
+      Some(g) => obs.push((g, h.doc_id.clone(), inner)),
+      None => {
+        // not demanded whether such a document is returned, but it can never carry members of a group
+        if inner.iter().any(|i| g_of(i).is_some()) {
+          return Err(un(format!("hit {} has no collapse value but its inner_hits {:?} contain documents of a group", h.doc_id, inner)));
+        }
+      }
+    }
+  }
+  let c = Case { n, limit, has_inner: inner_cfg.is_some(), from, size, rm: &refs[&sort_key(&main_sort)], obs: &obs, group_order: &group_order, members: &members, missing, total_groups: res.total_groups, g_of: &g_of };
+  match judge(&c, &refs[&sort_key(&inner_sort)], true) {
+    Ok(o) => Ok(o),
+    Err(f) => {
+      // Narrow classifier for one established defect: when the request sort does not mention
+      // `_score` the segment search runs in match-only mode and every hit carries score 0, so an
+      // inner sort on `_score` has nothing to sort by. Explained iff (1) the main sort has no
+      // `_score`, (2) the inner sort has, (3) every score in the response is 0, (4) the failure is
+      // only about inner order / window position, and (5) the response is exactly right once
+      // `_score` is treated as constant in the inner sort.
+      if f.kind == Kind::InnerOrder && !has_score(&main_sort) && has_score(&inner_sort) && all_scores_zero {
+        let rest: Vec<Value> = inner_sort.as_array().map(|a| a.iter().filter(|s| s["field"] != "_score").cloned().collect()).unwrap_or_default();
+        let alt = if rest.is_empty() {
+          let rm = &refs[&sort_key(&main_sort)];
+          Ref { order: rm.order.clone(), pos: rm.pos.clone(), class: rm.order.iter().map(|i| (i.clone(), 0)).collect(), total: rm.total }
+        } else {
+          reference(reader, &docs, query, &Value::Array(rest)).map_err(un)?
+        };
+        if judge(&c, &alt, false).is_ok() {
+          return Err((Some(SIG_INNER_SCORE), f.what));
+        }
+      }
+      // Second established defect: on the score fast path (sort = `_score` desc only) every segment
+      // contributes its own top-(limit+1) candidates and the merged list is collapsed without being
+      // cut back to the global top-(limit+1), so with limit < n a group can be represented by, or
+      // ordered after, documents that only the per-segment surplus brought in. Explained iff
+      // limit < n, >= 2 segments, fast-path sort, and the whole response (representatives and inner
+      // hits) equals what collapsing the per-segment candidates yields while collapsing the global
+      // top-(limit+1) would yield something else.
+      if limit < n && world.layout.len() >= 2 && fast_path(&main_sort) {
+        let rm = &refs[&sort_key(&main_sort)];
+        let ri = &refs[&sort_key(&inner_sort)];
+        let mut seg_of: HashMap<&str, usize> = HashMap::new();
+        let mut i = 0;
+        for (si, k) in world.layout.iter().enumerate() {
+          for d in &world.docs[i..i + k] {
+            seg_of.insert(d["_id"].as_str().unwrap(), si);
+          }
+          i += k;
+        }
+        let collapse_list = |cands: &[String]| -> Obs {
+          let mut order: Vec<String> = Vec::new();
+          let mut mem: BTreeMap<String, Vec<String>> = BTreeMap::new();
+          for id in cands {
+            if let Some(g) = g_of(id) {
+              if !mem.contains_key(&g) {
+                order.push(g.clone());
+              }
+              mem.entry(g).or_default().push(id.clone());
+            }
+          }
+          let mut out: Obs = Vec::new();
+          for g in order.into_iter().take(limit) {
+            let m = &mem[&g];
+            let mut others: Vec<String> = m[1..].to_vec();
+            others.sort_by_key(|id| ri.pos[id]);
+            let inner: Vec<String> = if inner_cfg.is_some() {
+              let mut v: Vec<String> = others.into_iter().skip(from).collect();
+              if let Some(z) = size {
+                v.truncate(z);
+              }
+              v
+            } else {
+              vec![]
+            };
+            out.push((g, m[0].clone(), inner));
+          }
+          out
+        };
+        let global: Vec<String> = rm.order.iter().take(limit + 1).cloned().collect();
+        let mut per_seg: Vec<String> = Vec::new();
+        for si in 0..world.layout.len() {
+          per_seg.extend(rm.order.iter().filter(|id| seg_of[id.as_str()] == si).take(limit + 1).cloned());
+        }
+        per_seg.sort_by_key(|id| rm.pos[id]);
+        let predicted = collapse_list(&per_seg);
+        if predicted == obs && predicted != collapse_list(&global) {
+          return Err((Some(SIG_SEG_TOPK), f.what));
+        }
+      }
+      Err((None, f.what))
+    }
+  }
+}
+
+/// All collapsed requests for a world of n documents, simplest first.
+fn requests(n: usize) -> Vec<Value> {
+  let mut limits = vec![n];
+  for l in [1usize, 2] {
+    if l < n {
+      limits.push(l);
+    }
+  }
+  let mut out = Vec::new();
+  for (mi, m) in main_plans().iter().enumerate() {
+    let mut inners: Vec<Option<Value>> = vec![None];
+    let mut sorts: Vec<Option<Value>> = inner_plans().into_iter().map(Some).collect();
+    if mi == 0 {
+      // inner_hits without its own sort: only under the default main sort, where "request sort" and
+      // "default sort" coincide
+      sorts.push(None);
+    }
+    for s in sorts {
+      for from in [None, Some(1), Some(2)] {
+        for size in [None, Some(0), Some(1), Some(2)] {
+          let mut ih = json!({});
+          if let Some(s) = &s {
+            ih["sort"] = s.clone();
+          }
+          if let Some(f) = from {
+            ih["from"] = json!(f);
+          }
+          if let Some(z) = size {
+            ih["size"] = json!(z);
+          }
+          inners.push(Some(ih));
+        }
+      }
+    }
+    // from: 0 spelled out once
+    inners.push(Some(json!({"from": 0, "size": 1, "sort": inner_plans()[1]})));
+    for ih in inners {
+      for l in &limits {
+        let mut c = json!({"field": "g"});
+        if let Some(ih) = &ih {
+          c["inner_hits"] = ih.clone();
+        }
+        out.push(json!({"query": "a", "sort": m, "collapse": c, "limit": l, "execution": "bm25"}));
+      }
+    }
+  }
+  out
+}
+
+fn case_json(world: &World, r: &Value) -> Value {
+  json!({"engine": "inputmc-collapse", "world": world.to_json(), "request": r})
+}
+
+fn brief(world: &World) -> String {
+  let ds: Vec<String> = world
+    .docs
+    .iter()
+    .map(|d| format!("{}(g={},body={},n={},kw={})", d["_id"].as_str().unwrap(), d.get("g").map(|v| v.to_string()).unwrap_or("-".into()), d["body"], d.get("n").map(|v| v.to_string()).unwrap_or("-".into()), d.get("kw").map(|v| v.to_string()).unwrap_or("-".into())))
+    .collect();
+  format!("docs [{}] layout {:?}", ds.join(", "), world.layout)
+}
+
+pub fn run(ctx: &Ctx) -> i32 {
+  let mut rep = Reporter::new("C18", ctx.tier, "exploration");
+  let quick = ctx.tier.is_quick();
+  if let Some(path) = &ctx.replay {
+    rep.set_replaying(true);
+    let v: Value = serde_json::from_slice(&std::fs::read(path).expect("replay file")).expect("json");
+    let cs = &v["case"];
+    let world = World::from_json(&cs["world"]);
+    let run = || {
+      let idx = world.build();
+      let reader = idx.reader().expect("reader");
+      check(&reader, &world, &cs["request"], &mut HashMap::new()).err()
+    };
+    let (a, b) = (run(), run());
+    if a.is_some() != b.is_some() {
+      vcore::ev::machinery_failure("NONDETERMINISM on replay");
+    }
+    return match a {
+      Some((sig, w)) => {
+        println!("VIOLATION property=C18 replay={path}\n  signature: {}\n  what: {w}", sig.unwrap_or("-"));
+        1
+      }
+      None => {
+        println!("replay: no violation");
+        0
+      }
+    };
+  }
+
+  // worlds, simplest first
+  let nv = variants().len();
+  let full_n: Vec<usize> = if quick { vec![1, 2, 3] } else { vec![1, 2, 3, 4] };
+  let pattern_n: Vec<usize> = if quick { vec![4] } else { vec![5, 6] };
+  let mut worlds: Vec<World> = Vec::new();
+  for &n in &full_n {
+    let vseqs = sequences(&(0..nv).collect::<Vec<_>>(), n, n);
+    for gs in group_seqs(n) {
+      for vs in &vseqs {
+        for lay in layouts(n) {
+          worlds.push(mk_world(&gs, vs, &lay));
+        }
+      }
+    }
+  }
+  for &n in &pattern_n {
+    let lays: Vec<Vec<usize>> = if quick { vec![vec![n], vec![1, n - 1], vec![n / 2, n - n / 2]] } else { layouts(n) };
+    for gs in group_seqs(n) {
+      for p in patterns(!quick) {
+        for lay in &lays {
+          worlds.push(mk_world(&gs, &p[..n], lay));
+        }
+      }
+    }
+  }
+  if quick {
+    // a thin n = 5 slice: the smallest worlds in which per-segment candidate lists matter
+    for gs in group_seqs(5) {
+      for p in [[3usize, 1, 3, 1, 0], [2, 0, 0, 0, 0]] {
+        worlds.push(mk_world(&gs, &p, &[1, 4]));
+      }
+    }
+  }
+  if std::env::var("C18_COUNTS").is_ok() {
+    println!("worlds {} requests(n=4) {} requests(n=6) {}", worlds.len(), requests(4).len(), requests(6).len());
+    return 0;
+  }
+
+  let evals = AtomicU64::new(0);
+  let nontrivial = AtomicU64::new(0);
+  let full_cases = AtomicU64::new(0);
+  let tie_div = AtomicU64::new(0);
+  let tg_short = AtomicU64::new(0);
+  let outcomes: Mutex<HashSet<(usize, usize, usize)>> = Mutex::new(HashSet::new());
+  let kept: Mutex<Vec<(usize, Option<&'static str>, String, Value)>> = Mutex::new(Vec::new());
+  let fail_counts: Mutex<BTreeMap<String, u64>> = Mutex::new(BTreeMap::new());
+  let sent_known = AtomicBool::new(false);
+  let seg_topk_no_missing = AtomicU64::new(0);
+  let seg_topk_witness: Mutex<Option<String>> = Mutex::new(None);
+  let deadline = if quick { 33.0 } else { 840.0 };
+  let timed_out = AtomicBool::new(false);
+  let worlds_done = AtomicU64::new(0);
+  let reqs_by_n: HashMap<usize, Vec<Value>> = (1..=6).map(|n| (n, requests(n))).collect();
+
+  for chunk in worlds.chunks(2048) {
+    chunk.par_iter().for_each(|world| {
+      if rep.elapsed_s() > deadline {
+        timed_out.store(true, Ordering::Relaxed);
+        return;
+      }
+      let idx = world.build();
+      let reader = idx.reader().expect("reader");
+      let n = world.docs.len();
+      let mut refs: HashMap<String, Ref> = HashMap::new();
+      let mut local: HashSet<(usize, usize, usize)> = HashSet::new();
+      let (mut ev, mut nt, mut fc, mut td, mut ts) = (0u64, 0u64, 0u64, 0u64, 0u64);
+      for r in &reqs_by_n[&n] {
+        ev += 1;
+        match check(&reader, world, r, &mut refs) {
+          Ok(o) => {
+            if o.collapsed_away > 0 && o.inner_total > 0 {
+              nt += 1;
+              if !rep.sample_full() && r["limit"].as_u64() == Some(n as u64) && n >= 4 {
+                rep.sample(json!({"world": brief(world), "request": r, "groups_returned": o.groups, "inner_hits_total": o.inner_total}));
+              }
+            }
+            if r["limit"].as_u64().unwrap_or(0) as usize >= n {
+              fc += 1;
+            }
+            if o.tie_divergence {
+              td += 1;
+              if std::env::var("C18_SHOW_TIES").is_ok() {
+                println!("TIE-DIVERGENCE {} request {}", brief(world), r);
+              }
+            }
+            if o.total_groups_short {
+              ts += 1;
+            }
+            local.insert((o.groups, o.collapsed_away.min(9), o.inner_total.min(9)));
+          }
+          Err((sig, what)) => {
+            if sig == Some(SIG_SEG_TOPK) && world.docs.iter().all(|d| d.get("g").is_some()) {
+              seg_topk_no_missing.fetch_add(1, Ordering::Relaxed);
+              let mut w = seg_topk_witness.lock();
+              if w.is_none() {
+                *w = Some(format!("{} request {}: {}", brief(world), r, what));
+              }
+            }
+            let label = sig.unwrap_or("unexplained");
+            *fail_counts.lock().entry(label.to_string()).or_default() += 1;
+            if let Some(s) = sig {
+              if rep.is_known_open(s) {
+                if !sent_known.swap(true, Ordering::SeqCst) {
+                  rep.fail(Some(s), &format!("{} request {}: {}", brief(world), r, what), case_json(world, r));
+                } else {
+                  rep.fail(Some(s), "", Value::Null);
+                }
+                continue;
+              }
+            }
+            let key = n * 1000 + r.to_string().len();
+            let mut k = kept.lock();
+            let same: Vec<usize> = k.iter().enumerate().filter(|(_, x)| x.1 == sig).map(|(i, _)| i).collect();
+            if same.len() < 5 {
+              k.push((key, sig, format!("{} request {}: {}", brief(world), r, what), case_json(world, r)));
+            } else if let Some(wi) = same.iter().max_by_key(|i| k[**i].0).copied() {
+              if key < k[wi].0 {
+                k[wi] = (key, sig, format!("{} request {}: {}", brief(world), r, what), case_json(world, r));
+              }
+            }
+          }
+        }
+      }
+      evals.fetch_add(ev, Ordering::Relaxed);
+      nontrivial.fetch_add(nt, Ordering::Relaxed);
+      full_cases.fetch_add(fc, Ordering::Relaxed);
+      tie_div.fetch_add(td, Ordering::Relaxed);
+      tg_short.fetch_add(ts, Ordering::Relaxed);
+      worlds_done.fetch_add(1, Ordering::Relaxed);
+      let mut o = outcomes.lock();
+      for x in local {
+        o.insert(x);
+      }
+    });
+  }
+  rep.add_evals(evals.load(Ordering::Relaxed));
+  // report the smallest kept failures: unexplained first, classes interleaved
+  let mut k = std::mem::take(&mut *kept.lock());
+  k.sort_by(|a, b| (a.1.is_some(), a.0).cmp(&(b.1.is_some(), b.0)));
+  let mut rank: HashMap<Option<&str>, usize> = HashMap::new();
+  let mut ranked: Vec<(usize, usize)> = Vec::new();
+  for (i, x) in k.iter().enumerate() {
+    let r = rank.entry(x.1).or_insert(0);
+    ranked.push((*r, i));
+    *r += 1;
+  }
+  ranked.sort();
+  let mut reported: BTreeMap<String, u64> = BTreeMap::new();
+  for (_, i) in ranked {
+    let x = &k[i];
+    rep.fail(x.1, &x.2, x.3.clone());
+    *reported.entry(x.1.unwrap_or("unexplained").to_string()).or_default() += 1;
+  }
+  let counts = fail_counts.lock().clone();
+  for (label, cnt) in &counts {
+    let sig = if label == "unexplained" { None } else { Some(label.as_str()) };
+    if let Some(s) = sig {
+      if rep.is_known_open(s) {
+        continue;
+      }
+    }
+    for _ in reported.get(label).copied().unwrap_or(0)..*cnt {
+      rep.fail(sig, "(further case of the same class)", Value::Null);
+    }
+  }
+  let to = timed_out.load(Ordering::Relaxed);
+  let n_out = outcomes.lock().len();
+  if n_out < 2 || nontrivial.load(Ordering::Relaxed) == 0 {
+    vcore::ev::machinery_failure("C18 vacuous: collapse never removed a hit or never produced inner hits");
+  }
+  let cov = vcore::cov! {
+    "distinct_nontrivial" => nontrivial.load(Ordering::Relaxed),
+    "rule" => "cases = world x collapsed request; a case is non-trivial when collapse removed at least one matching document from the top-level hits and at least one inner_hits list is non-empty. Worlds: every canonical assignment of <= 3 group values (sizes 1-4) or no value to n documents x document variants (2 score levels x n in {1,2,missing} x kw in {p,q,missing}) x 1-2 segment layouts; all 4^n variant sequences for the small n, 8 (quick) / 17 (thorough) fixed tie-prone variant patterns for the larger n. Requests: 4 main sorts x (no inner_hits | 3 inner sorts [+ inner_hits without sort under the default main sort] x from {absent,1,2} x size {absent,0,1,2}) x limit {n,1,2}, query `a` (matches every document), execution bm25.",
+    "worlds" => worlds.len(),
+    "worlds_done" => worlds_done.load(Ordering::Relaxed),
+    "doc_counts_all_variant_sequences" => full_n,
+    "doc_counts_pattern_variants" => pattern_n,
+    "quick_extra" => if quick { "n = 5: every group assignment x variant patterns 31310 / 20000 x layout [1,4]" } else { "" },
+    "requests_per_world_n4" => reqs_by_n[&4].len(),
+    "cases_with_limit_ge_n_full_equality" => full_cases.load(Ordering::Relaxed),
+    "cases_equal_only_up_to_ties" => tie_div.load(Ordering::Relaxed),
+    "info_cases_limit_lt_n_where_total_groups_is_below_the_number_of_groups" => tg_short.load(Ordering::Relaxed),
+    "per_segment_topk_failures_in_worlds_where_every_document_has_a_collapse_value" => seg_topk_no_missing.load(Ordering::Relaxed),
+    "per_segment_topk_witness_without_missing_values" => seg_topk_witness.lock().clone(),
+    "failure_classes" => counts.iter().map(|(k, v)| (k.clone(), json!(v))).collect::<serde_json::Map<String, Value>>(),
+    "distinct_observed_outcomes" => n_out,
+    "cap_hit" => if to { Some(format!("wall budget {deadline}s")) } else { None },
+    "exhaustive" => !to,
+  };
+  rep.finish(
+    cov,
+    vec![
+      "documents without a value for the collapse field: the documentation does not say whether they are returned; hits without a value are ignored (the implementation drops them), total_groups may or may not count them, but they may never appear inside a group's inner_hits".into(),
+      "inner_hits without its own `sort` is only exercised under the default main sort (README: 'sorted independently if you supply sort'; whether the fallback is the request sort or the default sort is not documented; the implementation uses the default sort)".into(),
+      "limit < n: only the invariants of the statement are demanded (one hit per value, representative is its group's best, group order, inner hits are other members of the same group in inner-sort order, at most `size`); the number of returned groups may be below `limit` and total_groups / inner_hits only reflect the top limit+1 ranked documents (counted as info, not judged)".into(),
+      "collapse field values are single-valued by construction; sort fields are single-valued".into(),
+      "ranking itself (scores, sort order of the uncollapsed response) is taken from the implementation (C10's concern)".into(),
+    ],
+  )
 }
